@@ -420,6 +420,65 @@ let tim_check line =
     verdict (want = got) ("expected:" ^ String.concat "," (String.split_on_char ' ' want))
   | _ -> verdict false ("outcome:" ^ i)
 
+(* ---- psec: ParsedSeconds::from_str.  "label text" -> "ok secs nanos" | "rejected" ---- *)
+let unsp s =
+  (* U+2423 (e2 90 a3) stands for a space *)
+  let b = Buffer.create (String.length s) in
+  let n = String.length s in
+  let i = ref 0 in
+  while !i < n do
+    if !i + 2 < n && s.[!i] = '\xe2' && s.[!i + 1] = '\x90' && s.[!i + 2] = '\xa3' then (Buffer.add_char b ' '; i := !i + 3)
+    else (Buffer.add_char b s.[!i]; incr i)
+  done;
+  Buffer.contents b
+
+let psec_text line =
+  match String.index_opt line ' ' with
+  | Some i -> unsp (String.sub line (i + 1) (String.length line - i - 1))
+  | None -> ""
+
+let psec line =
+  match decimal_nanos (str (psec_text line)) with
+  | Some (s, n) -> "ok " ^ string_of_n s ^ " " ^ string_of_n n
+  | None -> "rejected"
+
+let psec_check line =
+  let (c, i) = split_sb line in
+  let out = (match toks i with
+      | ["ok"; s; n] -> Some (Some (n_of_string s, n_of_string n))
+      | ["rejected"] -> Some None
+      | _ -> None) in
+  match out with
+  | Some o -> verdict (parse_seconds_sb (str (psec_text c)) o) "not-the-exact-decimal-value-in-nanoseconds"
+  | None -> verdict false ("outcome:" ^ i)
+
+(* ---- ropt: runner-level options of a fresh process.  "r #R F:.. E:.. P:.. Q:.."; in F and E the values of mn/mx are
+   decimal text "T<text>" (they go through ParsedSeconds), in P and Q nanoseconds -> shown options + "#N min max" ---- *)
+exception Rejected
+let ropt_fields spec : options =
+  let conv kv =
+    if String.length kv > 4 && (String.sub kv 0 4 = "mn=T" || String.sub kv 0 4 = "mx=T") then begin
+      let text = unsp (String.sub kv 4 (String.length kv - 4)) in
+      match decimal_nanos (str text) with
+      | Some (s, n) -> String.sub kv 0 3 ^ string_of_n (N.add (N.mul s (n_of_string "1000000000")) n)
+      | None -> raise Rejected
+    end else kv in
+  parse_fields (String.concat "," (List.map conv (List.filter (fun x -> x <> "") (String.split_on_char ',' spec))))
+
+let ropt_gen use_spec line =
+  let secs = sections line in
+  let src = List.map split_kv (nonempty (section secs "R")) in
+  try
+    let get k = match List.assoc_opt k src with Some s -> ropt_fields s | None -> o_default in
+    let runner = (if use_spec then spec_runner else runner_level) (get "P") (get "F") (get "E") (get "Q") in
+    let (mn, mx) = time_limits runner in
+    show_options runner ^ " #N " ^ string_of_n mn ^ " " ^ string_of_n mx
+  with Rejected -> "rejected"
+
+let ropt_check line =
+  let (c, i) = split_sb line in
+  verdict (ropt_gen true c = i) ("expected:" ^ String.concat "," (String.split_on_char ' ' (ropt_gen true c)))
+
 let dispatch mode line =
   match mode with
   | "ismatch" -> ismatch line
@@ -434,6 +493,10 @@ let dispatch mode line =
   | "into.sb" -> into_check line
   | "opt" -> "O " ^ opt_gen false line
   | "opt.sb" -> opt_check line
+  | "psec" -> psec line
+  | "psec.sb" -> psec_check line
+  | "ropt" -> ropt_gen false line
+  | "ropt.sb" -> ropt_check line
   | "tim" -> tim_gen false line
   | "tim.sb" -> tim_check line
   | _ -> failwith ("unknown mode " ^ mode)
